@@ -11,6 +11,8 @@
 //   b3_multi_bytes      arbitrary bytes, '\n'-separated into X-B3-TraceId / X-B3-SpanId /
 //                       X-B3-Sampled / b3 (so that the precedence rule is explored too)
 //   jaeger_bytes        arbitrary bytes as the `uber-trace-id` header
+//   b3_helpers          the public static TraceIdFromHex / SpanIdFromHex / TraceFlagsFromHex called
+//                       directly (null view, empty, every length, upper case, over-long, odd values)
 //
 // Oracle.  The reference extractors below are written from the property statement, the B3
 // specification (openzipkin/b3-propagation), the Jaeger client documentation ("Propagation format")
@@ -18,9 +20,10 @@
 // acceptable outcomes: "caller's context returned unchanged" and/or one or more remote contexts
 // (trace id, span id, sampled yes/no/either).  Documented shapes have exactly one acceptable
 // outcome; shapes the documents leave open (short / odd-length / upper-case B3 ids, over-long ids
-// that only carry extra leading zeros, undocumented sampling values, extra fields, a malformed
-// single header next to valid multi headers, ...) accept either the reference's context or the
-// unchanged context - never a context with other ids, zero ids, or a non-remote context.
+// that only carry extra leading zeros, blanks at the ends of a header value, undocumented sampling
+// values, extra fields, a malformed single header next to valid multi headers, ...) accept either
+// the reference's context or the unchanged context - never a context with other ids, zero ids, a
+// non-remote context, a flags byte other than 0x00 / 0x01 or a trace state.
 #include <algorithm>
 #include <array>
 #include <cstdint>
@@ -244,13 +247,30 @@ const HexPolicy kB3SpanPol{8, len_b3_span, false};
 const HexPolicy kJgTracePol{16, len_jaeger_trace, true};
 const HexPolicy kJgSpanPol{8, len_jaeger_span, true};
 
-HexRef ref_hex(const std::string &s, const HexPolicy &p)
+// the C-locale isspace set: what the W3C propagator of the same repository trims off a header value
+bool is_blank(char ch)
+{
+  return ch == ' ' || ch == '\t' || ch == '\n' || ch == '\v' || ch == '\f' || ch == '\r';
+}
+
+HexRef ref_hex(const std::string &raw, const HexPolicy &p)
 {
   HexRef r;
   r.val.assign(p.nbytes, 0);
+  // Blanks at the ends of an id field.  The statement and the B3 / Jaeger documents are silent about
+  // them; a reader that trims header values (as the W3C propagator next door does) derives the id
+  // that is left, a reader that does not sees a non-hex field.  Both are right: Gray.  A blank INSIDE
+  // the digits leaves no id to derive and stays Bad.
+  size_t b = 0, e = raw.size();
+  while (b < e && is_blank(raw[b]))
+    ++b;
+  while (e > b && is_blank(raw[e - 1]))
+    --e;
+  const bool padded   = b > 0 || e < raw.size();
+  const std::string s = raw.substr(b, e - b);
   if (s.empty())
   {
-    r.cls = "empty";
+    r.cls = padded ? "blank-only" : "empty";
     return r;
   }
   bool upper = false;
@@ -311,6 +331,11 @@ HexRef ref_hex(const std::string &s, const HexPolicy &p)
     r.cls = s.size() == max ? "full" : (s.size() == max / 2 ? "half" : "short-ok");
     if (upper)
       r.cls += "-upper";
+  }
+  if (padded)
+  {
+    r.q   = Q::Gray;
+    r.cls = "blank-padded";
   }
   return r;
 }
@@ -642,6 +667,17 @@ bool check_extract(vh::Case &c, context::propagation::TextMapPropagator &p, cons
            pname << ".Extract(" << cshow << ") installed a context with a zero id: " << got.str());
   VH_CHECK(c, sc.IsRemote(), pname << ".Extract(" << cshow << ") installed a non-remote context "
                                    << got.str());
+  // B3 and Jaeger headers carry a sampling decision and nothing else of the W3C flags byte or of the
+  // trace state: no other flag bit (0x02 is the W3C random-trace-id flag; Jaeger's debug / firehose
+  // bits are not W3C flags) and no trace state member can come out of them (assumption in c16.py)
+  const uint8_t got_flags = sc.trace_flags().flags();
+  VH_CHECK(c, (got_flags & 0xfe) == 0,
+           pname << ".Extract(" << cshow << ") installed " << got.str() << " with the flags byte 0x"
+                 << hex(&got_flags, 1) << ": a bit other than 'sampled' leaked out of the header");
+  const bool null_state = !sc.trace_state();
+  VH_CHECK(c, !null_state && sc.trace_state()->Empty(),
+           pname << ".Extract(" << cshow << ") installed " << got.str()
+                 << (null_state ? " with a null trace state" : " with a non-empty trace state"));
   if (caller.kind >= 1)
   {
     auto o = out.GetValue("other");
@@ -857,6 +893,19 @@ void apply_edit(vh::Reader &rd, std::string &s)
   }
 }
 
+// blanks at the ends of a header value (what an HTTP stack may leave there, what a trimming reader drops)
+void pad_blanks(vh::Reader &rd, std::string &v)
+{
+  static const char bl[] = {' ', '\t', ' ', '\t', '\r', '\n', '\v', '\f'};
+  unsigned where         = 1 + rd.below(3);  // 1 leading, 2 trailing, 3 both
+  size_t n               = 1 + rd.below(2);
+  char ch                = bl[rd.below(sizeof(bl))];
+  if (where & 1)
+    v.insert(static_cast<size_t>(0), n, ch);
+  if (where & 2)
+    v.append(n, ch);
+}
+
 // decoy header of the other family: an extractor that reads it installs ids nobody expects
 const char kDecoyB3[]   = "decade0000000000decade0000000001-decade0000000002-1";
 const char kDecoyUber[] = "decade0000000000decade0000000003:decade0000000004:0:01";
@@ -882,11 +931,34 @@ bool some_hex_id(const std::string &v, char sep)
   return false;
 }
 
+// how the multi-header values get onto the carrier
+struct MultiShape
+{
+  // bit i set: header i (0 X-B3-TraceId, 1 X-B3-SpanId, 2 X-B3-Sampled) is left OFF the carrier when
+  // its value is empty (Get() then returns the null view); bit clear: stored as an empty value
+  unsigned absent_mask = 0;
+  // a X-B3-Flags header (the multi-header spelling of "debug" in the B3 document); nullptr = none
+  const char *x_b3_flags = nullptr;
+};
+
 void run_b3(vh::Case &c, const std::string &b3, const std::string &tid, const std::string &sid,
-            const std::string &smp, bool have_b3, bool have_multi, int caller_kind, bool decoy)
+            const std::string &smp, bool have_b3, bool have_multi, int caller_kind, bool decoy,
+            const MultiShape &shape = MultiShape())
 {
   Expect ex = ref_b3(have_b3 ? b3 : "", have_multi ? tid : "", have_multi ? sid : "",
                      have_multi ? smp : "");
+  if (shape.x_b3_flags)
+  {
+    // The statement names only 'd'.  "X-B3-Flags: 1" is debug (implies accept) in the B3 document,
+    // any other value "can be ignored": the header never changes the ids, and with the value 1 a
+    // reader may report the context as sampled.
+    bool debug = std::string(shape.x_b3_flags) == "1";
+    c.tag(debug ? "x-b3-flags:1" : "x-b3-flags:other");
+    if (debug)
+      for (auto &r : ex.ok)
+        if (r.sampled == Tri::No)
+          r.sampled = Tri::Either;
+  }
   emit_tags(c, ex);
   // the two B3 propagators share the documented extraction rules: both are asked
   prop::B3Propagator single;
@@ -901,10 +973,24 @@ void run_b3(vh::Case &c, const std::string &b3, const std::string &tid, const st
       car->put(kUber, kDecoyUber);
     if (have_multi)
     {
-      // an empty header value is stored as such (reads as empty, like an absent one)
-      car->put(kB3Trace, tid);
-      car->put(kB3Span, sid);
-      car->put(kB3Sampled, smp);
+      // an empty value is either stored as such (a non-null view of length 0) or the header is left
+      // off (this carrier then returns the null view): "missing" in both spellings
+      const char *keys[]        = {kB3Trace, kB3Span, kB3Sampled};
+      const std::string *vals[] = {&tid, &sid, &smp};
+      for (unsigned k = 0; k < 3; ++k)
+      {
+        if (vals[k]->empty() && (shape.absent_mask & (1u << k)))
+        {
+          if (i == 0)
+            c.tag(std::string("multi:header-absent:") + keys[k]);
+          continue;
+        }
+        if (vals[k]->empty() && i == 0)
+          c.tag(std::string("multi:header-empty:") + keys[k]);
+        car->put(keys[k], *vals[k]);
+      }
+      if (shape.x_b3_flags)
+        car->put("X-B3-Flags", shape.x_b3_flags);
     }
     if (have_b3)
       car->put(kB3, b3);
@@ -1095,8 +1181,9 @@ VH_TARGET(rt_inject_extract, 1,
 VH_TARGET(ex_struct, 1,
           "a header case is non-trivial when the reference extractor derives at least one id "
           "(non-empty all-hex field among the first two) AND the case has an oddity: a non-canonical "
-          "id spelling, a sampling value other than 0/1, a missing/extra field, both B3 styles "
-          "present, or a byte edit; distinct = distinct header text")
+          "id spelling (incl. blanks at the ends of a header value), a sampling value other than 0/1, a "
+          "missing/extra field (multi headers empty or really absent), both B3 styles present, or a byte "
+          "edit; distinct = distinct header text (absent headers and a X-B3-Flags header are part of it)")
 {
   vh::Reader &rd  = c.rd;
   size_t kind     = rd.weighted({30, 22, 18, 30});  // single, multi, both, jaeger
@@ -1149,12 +1236,12 @@ VH_TARGET(ex_struct, 1,
         }
       }
     }
+    bool smp_absent = false;
     if (have_multi)
     {
       tid = gen_hex_field(rd, 16);
       sid = gen_hex_field(rd, 8);
-      bool absent;
-      smp = gen_b3_flag(rd, &absent);
+      smp = gen_b3_flag(rd, &smp_absent);
     }
     for (unsigned i = 0; i < nedit; ++i)
     {
@@ -1162,12 +1249,41 @@ VH_TARGET(ex_struct, 1,
       size_t w          = have_b3 && have_multi ? rd.below(4) : have_b3 ? 0 : 1 + rd.below(3);
       apply_edit(rd, *tg[w]);
     }
+    // late draws (an exhausted stream gives the old shapes): blanks at the ends of one header value,
+    // which empty multi headers are really absent, a X-B3-Flags header
+    if (rd.chance(12))
+    {
+      std::string *tg[] = {&b3, &tid, &sid, &smp};
+      size_t w          = have_b3 && have_multi ? rd.below(4) : have_b3 ? 0 : 1 + rd.below(3);
+      pad_blanks(rd, *tg[w]);
+      c.tag("gen:blank-padded");
+    }
+    MultiShape shape;
+    if (have_multi)
+    {
+      shape.absent_mask = rd.below(8);
+      if (smp_absent)
+        shape.absent_mask |= 4;  // gen_b3_flag said "no sampling field at all"
+      static const char *xf[] = {nullptr, "1", "0", "d"};
+      shape.x_b3_flags        = xf[rd.weighted({86, 9, 3, 2})];
+    }
     d << "kind=" << (kind == 0 ? "b3-single" : kind == 1 ? "b3-multi" : "b3-both");
     if (have_b3)
       d << " b3='" << vh::show(b3) << "'";
     if (have_multi)
-      d << " X-B3-TraceId='" << vh::show(tid) << "' X-B3-SpanId='" << vh::show(sid) << "' X-B3-Sampled='"
-        << vh::show(smp) << "'";
+    {
+      const std::string *vals[] = {&tid, &sid, &smp};
+      const char *keys[]        = {kB3Trace, kB3Span, kB3Sampled};
+      for (unsigned k = 0; k < 3; ++k)
+      {
+        if (vals[k]->empty() && (shape.absent_mask & (1u << k)))
+          d << " " << keys[k] << " absent";
+        else
+          d << " " << keys[k] << "='" << vh::show(*vals[k]) << "'";
+      }
+      if (shape.x_b3_flags)
+        d << " X-B3-Flags='" << shape.x_b3_flags << "'";
+    }
     d << " caller=" << caller_kind << " decoy=" << decoy << "\n";
     c.note(d.str());
     c.tag(kind == 0 ? "kind:b3-single" : kind == 1 ? "kind:b3-multi" : "kind:b3-both");
@@ -1179,7 +1295,7 @@ VH_TARGET(ex_struct, 1,
                                         t.find("flag-missing") != std::string::npos ||
                                         t.find("-half") != std::string::npos;
                                }));
-    run_b3(c, b3, tid, sid, smp, have_b3, have_multi, caller_kind, decoy);
+    run_b3(c, b3, tid, sid, smp, have_b3, have_multi, caller_kind, decoy, shape);
   }
   else
   {
@@ -1196,6 +1312,11 @@ VH_TARGET(ex_struct, 1,
       v += rd.coin() ? ":" : ":1";
     for (unsigned i = 0; i < nedit; ++i)
       apply_edit(rd, v);
+    if (rd.chance(12))
+    {
+      pad_blanks(rd, v);
+      c.tag("gen:blank-padded");
+    }
     d << "kind=jaeger uber-trace-id='" << vh::show(v) << "' caller=" << caller_kind << " decoy=" << decoy
       << "\n";
     c.note(d.str());
@@ -1225,16 +1346,19 @@ VH_TARGET(b3_single_bytes, 1,
 
 VH_TARGET(b3_multi_bytes, 1,
           "arbitrary bytes split at the first three line feeds into X-B3-TraceId, X-B3-SpanId, "
-          "X-B3-Sampled and (the rest) b3; non-trivial when X-B3-TraceId or X-B3-SpanId is a "
+          "X-B3-Sampled and (the rest) b3 - a header whose line is never reached is absent from the "
+          "carrier, an empty line is an empty value; non-trivial when X-B3-TraceId or X-B3-SpanId is a "
           "non-empty all-hex string, or the b3 part is near the grammar; distinct = distinct byte "
           "string")
 {
   std::string all = c.rd.bytes(c.rd.remaining());
   std::string part[4];
   size_t pos = 0;
+  int nparts = 0;
   for (int i = 0; i < 4; ++i)
   {
     size_t e = i < 3 ? all.find('\n', pos) : std::string::npos;
+    nparts   = i + 1;
     if (e == std::string::npos)
     {
       part[i] = all.substr(pos);
@@ -1244,14 +1368,18 @@ VH_TARGET(b3_multi_bytes, 1,
     part[i] = all.substr(pos, e - pos);
     pos     = e + 1;
   }
+  // a header whose line was never reached is absent (null view); an empty line is an empty value
+  MultiShape shape;
+  for (int i = nparts; i < 3; ++i)
+    shape.absent_mask |= 1u << i;
   c.note("X-B3-TraceId='" + vh::show(part[0]) + "' X-B3-SpanId='" + vh::show(part[1]) + "' X-B3-Sampled='" +
-         vh::show(part[2]) + "' b3='" + vh::show(part[3]) + "'\n");
+         vh::show(part[2]) + "' b3='" + vh::show(part[3]) + "' lines=" + std::to_string(nparts) + "\n");
   auto hexish = [](const std::string &s) {
     return !s.empty() && std::all_of(s.begin(), s.end(), [](char ch) { return is_hex(ch); });
   };
   c.nontrivial = hexish(part[0]) || hexish(part[1]) || some_hex_id(part[3], '-');
   run_b3(c, part[3], part[0], part[1], part[2], !part[3].empty(), true, static_cast<int>(all.size() % 3),
-         (all.size() & 4) != 0);
+         (all.size() & 4) != 0, shape);
 }
 
 VH_TARGET(jaeger_bytes, 1,
@@ -1263,4 +1391,185 @@ VH_TARGET(jaeger_bytes, 1,
   c.note("uber-trace-id(" + std::to_string(v.size()) + ")='" + vh::show(v) + "'\n");
   c.nontrivial = some_hex_id(v, ':');
   run_jaeger(c, v, true, static_cast<int>(v.size() % 3), (v.size() & 4) != 0);
+}
+
+// ================================================================================================
+// The public static helpers of the B3 extractor, called directly.  Extract only ever hands them
+// fields that passed its own hex test; a caller of the public functions need not.
+//
+// OBSERVATION C16-fromhex-nonhex (decided: outside this property - the statement speaks of Inject and
+// Extract, and Extract validates with IsValidHex before it calls the helpers; same decision as for the
+// W3C helpers in C09; proposed_fixes/C16-fromhex-nonhex.diff shows a repair): a byte
+// that is no hex digit in the argument of TraceIdFromHex / SpanIdFromHex reaches detail::HexToBinary,
+// where HexToInt() == -1 is shifted left (undefined before C++20; UBSan: "left shift of negative
+// value -1") and or-ed into the id: "zz..." comes back as a valid-looking non-zero id.  The helpers
+// are therefore called with hex digits only (recorded assumption); the shape stays switched off.
+const bool kHoldBack_fromhex_nonhex = true;
+
+VH_TARGET(b3_helpers, 1,
+          "a direct call of TraceIdFromHex / SpanIdFromHex / TraceFlagsFromHex is non-trivial when the "
+          "argument is not the canonical spelling (full-length lower-hex id; '0' / '1'): a 64-bit or "
+          "shorter or odd-length id, upper case, over-long, empty, the null view, 'd', an undocumented or "
+          "multi-byte sampling value; distinct = distinct (helper, argument) text")
+{
+  vh::Reader &rd = c.rd;
+  size_t which   = rd.below(3);  // 0 TraceIdFromHex, 1 SpanIdFromHex, 2 TraceFlagsFromHex
+  bool null_view = false;
+  std::string in;
+  const char *cls = "";
+  if (which < 2)
+  {
+    const size_t full = which == 0 ? 32 : 16;
+    switch (rd.weighted({26, 14, 14, 10, 8, 6, 5, 5, 12}))
+    {
+      case 0:
+        cls = "full";
+        in  = gen_digits(rd, full, true);
+        break;
+      case 1:
+        cls = "half";
+        in  = gen_digits(rd, full / 2, true);
+        break;
+      case 2:
+        cls = "short";
+        in  = gen_digits(rd, 1 + rd.below(static_cast<uint32_t>(full - 1)), rd.chance(90));
+        break;
+      case 3:
+        cls = "uppercase";
+        in  = gen_digits(rd, rd.coin() ? full : 1 + rd.below(static_cast<uint32_t>(full)), true);
+        for (auto &ch : in)
+          if (ch >= 'a' && ch <= 'f' && rd.coin())
+            ch = static_cast<char>(ch - 'a' + 'A');
+        break;
+      case 4:
+        cls = "overlong-zero-prefix";
+        in  = std::string(1 + rd.below(5), '0') + gen_digits(rd, full, true);
+        break;
+      case 5:
+      {
+        cls           = "overlong";
+        size_t lens[] = {full + 1, full + 2, 2 * full, 100, full + 17};
+        in            = gen_digits(rd, lens[rd.below(5)], true);
+        if (in[0] == '0')
+          in[0] = '7';
+        break;
+      }
+      case 6:
+        cls = "empty";
+        break;
+      case 7:
+        cls       = "null-view";
+        null_view = true;
+        break;
+      default:
+      {
+        cls = "nonhex";
+        in  = gen_digits(rd, rd.chance(60) ? full : 1 + rd.below(static_cast<uint32_t>(full)), true);
+        char odd   = kOddChars[rd.below(sizeof(kOddChars))];
+        size_t pos = rd.below(static_cast<uint32_t>(in.size()));
+        in[pos]    = odd;
+        if (rd.chance(30))
+          in[rd.below(static_cast<uint32_t>(in.size()))] = static_cast<char>(rd.u8());
+        bool still = std::any_of(in.begin(), in.end(), [](char ch) { return !is_hex(ch); });
+        if (still && (kHoldBack_fromhex_nonhex || vh::excluded("C16-fromhex-nonhex")))
+        {
+          if (!kHoldBack_fromhex_nonhex)
+            vh::count_excluded("C16-fromhex-nonhex");
+          c.tag("nonhex-argument-not-generated");
+          for (auto &ch : in)
+            if (!is_hex(ch))
+              ch = 'e';
+          cls = "full";  // re-shaped: an all-hex argument
+          if (in.size() != full)
+            cls = "short";
+        }
+        else if (!still)
+          cls = in.size() == full ? "full" : "short";
+        break;
+      }
+    }
+  }
+  else
+  {
+    static const char *o[] = {"1", "0", "d", "", nullptr, "D", "true", "false", "11", "01", "1 ", " 1", "d1", "2"};
+    size_t i               = rd.weighted({16, 14, 14, 8, 8, 4, 4, 3, 4, 4, 3, 3, 3, 3, 12});
+    if (i < sizeof(o) / sizeof(o[0]))
+    {
+      if (o[i])
+        in = o[i];
+      else
+        null_view = true;
+      cls = !o[i] ? "null-view" : in.empty() ? "empty" : in == "1" || in == "0" ? "canonical" : in == "d" ? "debug" : "other";
+    }
+    else
+    {
+      in  = rd.bytes(1 + rd.below(3));
+      cls = "raw-bytes";
+      if (in.empty())
+        cls = "empty";
+    }
+  }
+  const char *names[] = {"TraceIdFromHex", "SpanIdFromHex", "TraceFlagsFromHex"};
+  c.note(std::string(names[which]) + "(" + (null_view ? std::string("null view") : "'" + vh::show(in) + "'") + ")\n");
+  c.tag(std::string("helper:") + names[which]);
+  c.tag(std::string("arg:") + cls);
+
+  // exact-size heap block, no terminator: one byte too far is an ASan report
+  std::unique_ptr<char[]> blk(new char[in.size()]);
+  std::memcpy(blk.get(), in.data(), in.size());
+  nostd::string_view arg = null_view ? nostd::string_view() : nostd::string_view(blk.get(), in.size());
+
+  if (which == 2)
+  {
+    c.nontrivial        = !(in == "0" || in == "1") || null_view;
+    trace::TraceFlags f = prop::B3PropagatorExtractor::TraceFlagsFromHex(arg);
+    blk.reset();
+    const uint8_t fb = f.flags();
+    VH_CHECK(c, (fb & 0xfe) == 0, "TraceFlagsFromHex('" << vh::show(in) << "') returned the flags byte 0x"
+                                                        << hex(&fb, 1) << ": only the sampled bit can come out of B3");
+    if (in == "1" || in == "d")
+      VH_CHECK(c, f.IsSampled(), "TraceFlagsFromHex('" << in << "') is not sampled");
+    else if (in == "0" || in.empty())
+      VH_CHECK(c, !f.IsSampled(), "TraceFlagsFromHex(" << (null_view ? "null view" : "'" + in + "'")
+                                                       << ") is sampled; a missing field / '0' is not sampled");
+    // anything else is an undocumented value: either decision
+    return;
+  }
+
+  const HexPolicy &pol = which == 0 ? kB3TracePol : kB3SpanPol;
+  HexRef ref           = ref_hex(in, pol);
+  std::vector<uint8_t> got(pol.nbytes, 0);
+  if (which == 0)
+  {
+    trace::TraceId id = prop::B3PropagatorExtractor::TraceIdFromHex(arg);
+    std::memcpy(got.data(), id.Id().data(), 16);
+  }
+  else
+  {
+    trace::SpanId id = prop::B3PropagatorExtractor::SpanIdFromHex(arg);
+    std::memcpy(got.data(), id.Id().data(), 8);
+  }
+  blk.reset();
+  c.tag("ref:" + ref.cls);
+  c.nontrivial  = !(ref.q == Q::Good && ref.cls == "full");
+  bool all_hex  = std::all_of(in.begin(), in.end(), [](char ch) { return is_hex(ch); });
+  bool got_zero = std::all_of(got.begin(), got.end(), [](uint8_t b) { return b == 0; });
+  std::string g = hex(got.data(), got.size()), w = hex(ref.val.data(), ref.val.size());
+  if (ref.q == Q::Good)
+    // the documented spellings (16 / 32 lower-hex digits; a 64-bit trace id is left-padded with zeros)
+    VH_CHECK(c, got == ref.val, names[which] << "('" << in << "') = " << g << "; expected " << w);
+  else if (ref.q == Q::Gray)
+    // other lengths / upper case / extra leading zeros: the value the digits spell, or "no id" (all zero)
+    VH_CHECK(c, got == ref.val || got_zero,
+             names[which] << "('" << in << "') = " << g << "; expected " << w << " or the zero id");
+  else if (all_hex && in.size() <= 2 * pol.nbytes)
+    // all zeros / empty / null view: the value is zero
+    VH_CHECK(c, got_zero, names[which] << "('" << in << "') = " << g << "; the digits spell the zero id");
+  else if (!all_hex)
+    // bytes that are no hex digits: no id can be derived; the invalid (all-zero) id is the helper's
+    // only way to say so and what Extract tests after the call - a non-zero id here is made of bytes
+    // that were not in the argument (part of candidate C16-fromhex-nonhex)
+    VH_CHECK(c, got_zero, names[which] << "('" << vh::show(in) << "') = " << g
+                                       << ": a non-zero id out of an argument that is not hex");
+  // an over-long value that does not fit: only the sanitizers decide
 }
